@@ -367,6 +367,19 @@ func (c *client) sendErrorToAll(err error) {
 	c.mutex.Unlock()
 }
 
+// sendFatalErrorToAll reports an error that ends the read loop to every waiting caller and marks the
+// read loop as stopped in the same critical section, so that an Execute that registers its result
+// entry afterwards starts a new read loop instead of waiting on the one that is exiting.
+func (c *client) sendFatalErrorToAll(err error) {
+	result := NewErrorExecutionResult(err)
+	c.mutex.Lock()
+	for runID := range c.runningStepResultEntries {
+		c.sendExecutionResult(runID, result)
+	}
+	c.readLoopRunning = false
+	c.mutex.Unlock()
+}
+
 func (c *client) handleWorkDoneMessage(runtimeMessage DecodedRuntimeMessage) {
 	var doneMessage WorkDoneMessage
 	var result ExecutionResult
@@ -414,7 +427,7 @@ func (c *client) handleErrorMessage(runtimeMessage DecodedRuntimeMessage) bool {
 	resultMsg := fmt.Errorf("step with run ID %q sent error message: %s", runtimeMessage.RunID, errorMessageStr)
 	c.logger.Errorf(resultMsg.Error())
 	if errMessage.ServerFatal {
-		c.sendErrorToAll(resultMsg)
+		c.sendFatalErrorToAll(resultMsg)
 		return true // It's server fatal, so this is the last message from the server.
 	} else if errMessage.StepFatal {
 		if runtimeMessage.RunID == "" {
@@ -428,7 +441,11 @@ func (c *client) handleErrorMessage(runtimeMessage DecodedRuntimeMessage) bool {
 	return false
 }
 
-func (c *client) hasEntriesRemaining() bool {
+// stopReadLoopIfNoEntriesRemaining reports whether no result is pending any more and, if so, marks the
+// read loop as stopped in the same critical section. Deciding to stop and clearing readLoopRunning must
+// not be separated: an Execute that registered its entry in between would see a read loop that is
+// still marked as running, start none, and wait forever for a result nobody reads.
+func (c *client) stopReadLoopIfNoEntriesRemaining() bool {
 	c.mutex.Lock()
 	defer c.mutex.Unlock()
 	for _, resultEntry := range c.runningStepResultEntries {
@@ -436,19 +453,16 @@ func (c *client) hasEntriesRemaining() bool {
 		// Context: There is a fraction of time when the entry is still in the map
 		// following completion. It is set to a non-nil value when done.
 		if resultEntry.result == nil {
-			return true
+			return false
 		}
 	}
-	return false
+	c.readLoopRunning = false
+	return true
 }
 
 func (c *client) executeReadLoop(cborReader *cbor.Decoder) {
-	defer func() {
-		c.mutex.Lock()
-		defer c.mutex.Unlock()
-		c.readLoopRunning = false
-		c.wg.Done()
-	}()
+	// readLoopRunning is cleared by whichever critical section decides that the loop ends.
+	defer c.wg.Done()
 	// Loop and get all messages
 	// The message is generic, so we must find the type and decode the full message next.
 	var runtimeMessage DecodedRuntimeMessage
@@ -460,7 +474,7 @@ func (c *client) executeReadLoop(cborReader *cbor.Decoder) {
 				err,
 			)
 			// This is fatal since the entire structure of the runtime message is invalid.
-			c.sendErrorToAll(fmt.Errorf("failed to read or decode runtime message (%w)", err))
+			c.sendFatalErrorToAll(fmt.Errorf("failed to read or decode runtime message (%w)", err))
 			return
 		}
 		switch runtimeMessage.MessageID {
@@ -480,7 +494,7 @@ func (c *client) executeReadLoop(cborReader *cbor.Decoder) {
 			)
 		}
 		// The non-error exit condition is having no more entries remaining.
-		if !c.hasEntriesRemaining() {
+		if c.stopReadLoopIfNoEntriesRemaining() {
 			return
 		}
 	}
